@@ -53,6 +53,9 @@ pub mod parameters {
     //@   props C07
     //@   ens[do_cleanup.post] r == self.do_cleanup_spec()
     }
+    /// TRUSTED: the only `str` without characters is the literal `""` (a `""` pattern matches exactly the empty string)
+    pub broadcast axiom fn ax_empty_str(s: &str)
+        ensures #![trigger s@] (s@.len() == 0) <==> s == "";
     impl Naming {
         pub(crate) open spec fn writes_direct_spec(self) -> bool {
             match self {
@@ -61,9 +64,11 @@ pub mod parameters {
                 _ => false,
             }
         }
-        //@ sig src/parameters/naming.rs impl Naming / fn writes_direct
+        //@ fn src/parameters/naming.rs impl Naming / fn writes_direct
         //@   ret r
-        //@   ens r == self.writes_direct_spec()
+        //@   props C07,C14,C01,C06
+        //@   prefix proof { reveal_strlit(""); broadcast use ax_empty_str; }
+        //@   ens[Naming::writes_direct.post] r == self.writes_direct_spec()
     }
 
     //@ opaque src/parameters/file_spec.rs struct FileSpec
